@@ -84,15 +84,31 @@ class Keys:
         from ndn.security.signer.ed25519_signer import Ed25519Signer
         from ndn.security.validator import known_key_validator as KV
         kl = [G.tlv(8, b'key'), G.tlv(8, b'KEY'), G.tlv(8, b'\x01')]
+
+        def both(fn, checker):
+            """verify function of known_key_validator + the shipped checker OBJECT for the same key (made once: a
+            verifier object may keep state between the packets it is shown)"""
+            fn.checker = checker
+            return fn
+        if not hasattr(self, '_checkers'):
+            self._checkers = {
+                'hmac': KV.HmacChecker.from_key('/key', self.hmac_key),
+                'rsa': KV.RsaChecker.from_key('/key', self.rsa.publickey().export_key('DER')),
+                'ed25519': KV.Ed25519Checker.from_key('/key', self.ed.public_key().export_key(format='DER')),
+            }
+            for c, k in self.ec.items():
+                self._checkers['ecdsa-' + c] = KV.EccChecker.from_key('/key', k.public_key().export_key(format='DER'))
+        ck = self._checkers
         out = [('digest', DigestSha256Signer(for_interest), None),
-               ('hmac', HmacSha256Signer(kl, self.hmac_key), lambda p: KV.verify_hmac(self.hmac_key, p)),
+               ('hmac', HmacSha256Signer(kl, self.hmac_key), both(lambda p: KV.verify_hmac(self.hmac_key, p), ck['hmac'])),
                ('null', NullSigner(), None),
-               ('rsa', Sha256WithRsaSigner(kl, self.rsa.export_key('DER')), lambda p: KV.verify_rsa(self.rsa.publickey(), p)),
+               ('rsa', Sha256WithRsaSigner(kl, self.rsa.export_key('DER')),
+                both(lambda p: KV.verify_rsa(self.rsa.publickey(), p), ck['rsa'])),
                ('ed25519', Ed25519Signer(kl, self.ed.export_key(format='DER')),
-                lambda p: KV.verify_ed25519(self.ed.public_key(), p))]
+                both(lambda p: KV.verify_ed25519(self.ed.public_key(), p), ck['ed25519']))]
         for c, k in self.ec.items():
             out.append(('ecdsa-' + c, Sha256WithEcdsaSigner(kl, k.export_key(format='DER')),
-                        lambda p, k=k: KV.verify_ecdsa(k.public_key(), p)))
+                        both(lambda p, k=k: KV.verify_ecdsa(k.public_key(), p), ck['ecdsa-' + c])))
         return out
 
 
